@@ -418,7 +418,7 @@ def _run(pr: PropertyRun, mod) -> int:
         else:
             for nme in names:
                 note = next((r.vc.note for r in shape_refuted if r.vc.name == nme), "")
-                pr.undecided.append({"obligation": nme, "reason": "the code no longer has the shape this syntactic obligation recognizes; the bounded stand-in (on-doubt budget) found no failing input"
+                pr.undecided.append({"obligation": nme, "reason": "this syntactic obligation no longer holds on the tree (shape not recognized, or a construct that needs a closer look); the bounded stand-in (on-doubt budget) found no failing input: undecided, not a violation"
                                      + (f" [{note[:160]}]" if note else ""), "loc": next((r.vc.loc for r in shape_refuted if r.vc.name == nme), "")})
     for b in bounded_fail:
         finding = match_finding(known, pid, "bounded:" + b["name"])
